@@ -50,7 +50,7 @@ impl Prop for C07 {
     type Case = Case;
     const ID: &'static str = "C07";
     const NUM: u64 = 7;
-    const RULE: &'static str = "AdjacencyListWeighted<isize> digraphs (order 1..14 quick / 1..48 thorough; uniform densities and 15 structured families incl. reverse paths whose arc order forces |V|-1 sweeps) with weight classes non-negative, potential-based (many negative arcs, no negative circuit), small signed, few-negative, -1/0/1, optionally a planted negative circuit; source in range (uniform, last vertex, first vertex); enum leg: every digraph of order <=3 with weights {-1,0,2} x every source. Arc-count residues mod 4 are tracked labels. About one random case in 60..150 has a large order (17..140, incl. 63..66 and 127..130). Non-trivial = (a negative arc and the synchronous reference DP needs >=3 rounds) or a negative circuit exists that the source cannot reach; distinct = distinct serialised case.";
+    const RULE: &'static str = "AdjacencyListWeighted<isize> digraphs (order 1..14 quick / 1..48 thorough; uniform densities and 15 structured families incl. reverse paths whose arc order forces |V|-1 sweeps) with weight classes non-negative, potential-based (many negative arcs, no negative circuit), small signed, few-negative, -1/0/1, optionally a planted negative circuit; source in range (uniform, last vertex, first vertex); enum leg: every digraph of order <=3 with weights {-1,0,2} x every source. Arc-count residues mod 4 are tracked labels. About one random case in 60..150 has a large order (17..140, incl. 63..66 and 127..130). distances() is called twice on the same instance and must answer the same. Non-trivial = (a negative arc and the synchronous reference DP needs >=3 rounds) or a negative circuit exists that the source cannot reach; distinct = distinct serialised case.";
     const ASSUMPTIONS: &'static [&'static str] = &[
         "walk sums stay far inside isize (|w| < 100, order <= 48)",
         "when a negative circuit exists but is not reachable from the source the property allows None or a correct Some; both are accepted",
